@@ -46,6 +46,7 @@ PCM, TRM = K.PCM, K.TRM
 TYPES = C15.TYPES
 
 ASSUMPTIONS = [
+    SK.TRANS_ASSUMPTION, SK.R32_ASSUMPTION,
     'floats are extended reals fin(r)|+inf|-inf|nan (XReal): comparisons, round(), floor(), abs are exact; inputs range over all reals, not only doubles',
     'machine arithmetic treated as mathematical (|x - value| in get_closest_element, halton_value * n, the midpoint (lo + hi) / 2: no rounding, no overflow; '
     'note: (lo + hi) overflows to inf in float64 for |lo|, |hi| > 8.98e307 -- outside this model)',
@@ -270,7 +271,10 @@ def grid_post(ptype, scale):
             # the property allows a configuration that cannot be handled to be REFUSED with an error: the scaling converter of the grid
             # refuses a LOG / REVERSE_LOG parameter with a non-positive bound (ValueError); nothing else may raise
             if T == 'DOUBLE' and scale in ('LOG', 'REVERSE_LOG') and exc_class(p) == 'ValueError':
-                return [('C03.grid_points.refuses_only_nonpositive_log_bounds.' + T, z3.Or(xreal.r(dom.lo) <= 0, xreal.r(dom.hi) <= 0))]
+                # the grid's converter has the default float32 dtype: the guard sees the bounds after the cast (a positive bound below the
+                # float32 underflow threshold casts to 0 and is refused too)
+                lo32, hi32 = C15.cast_of('float32', dom.lo), C15.cast_of('float32', dom.hi)
+                return [('C03.grid_points.refuses_only_nonpositive_log_bounds.' + T, z3.Or(xreal.r(lo32) <= 0, xreal.r(hi32) <= 0))]
             return [('C03.grid_points.no_raise.' + T, z3.BoolVal(False))]
         res = p.value
         out = [('C03.grid_points.no_raise.' + T, z3.BoolVal(True))]
@@ -386,11 +390,11 @@ E.PROPERTIES[ITM + ':SequentialParameterBuilder.parameters'] = lambda it, obj: o
 DEFAULT_SORT = {'DOUBLE': xreal.XReal, 'DISCRETE': xreal.XReal, 'INTEGER': z3.IntSort(), 'CATEGORICAL': Str}
 
 
-def default_entry(ptype, with_default):
+def default_entry(ptype, with_default, scale=None):
     def entry(it):
         run = it.run
         run.dom = K.Dom(run, ptype)
-        pc = C15.make_pc(it, run.dom)
+        pc = C15.make_pc(it, run.dom, scale)
         run.default = None
         if with_default:
             # what ParameterConfig.factory stores (C16.factory.normalises.default): a float for DOUBLE/DISCRETE (any float, NOT
@@ -403,8 +407,8 @@ def default_entry(ptype, with_default):
     return entry
 
 
-def default_post(ptype, with_default):
-    sfx = '%s.%s' % (ptype, 'configured_default' if with_default else 'centre')
+def default_post(ptype, with_default, scale=None):
+    sfx = '%s.%s%s' % (ptype, '' if scale is None else scale + '.', 'configured_default' if with_default else 'centre')
 
     def post(p):
         run = p.run
@@ -665,11 +669,20 @@ def replay_rs(function):
     return on_violation
 
 
-def replay_default(name, p, m):
-    run = p.run
-    job = {'kind': 'default', 'obligation': name, 'pc': K.dom_spec(m, run.dom),
-           'default': None if run.default is None else K.enc(K.model_scalar(m, run.default))}
-    return run_replay(job)
+def replay_default(scale=None):
+    def on_violation(name, p, m):
+        run = p.run
+        d = K.dom_spec(m, run.dom)
+        d['scale'] = scale
+        job = {'kind': 'default', 'obligation': name, 'pc': d,
+               'default': None if run.default is None else K.enc(K.model_scalar(m, run.default))}
+        return run_replay(job)
+    return on_violation
+
+
+def default_key(name):
+    """C03.get_default_parameters.<clause>.<TYPE>[.<SCALE>].<centre|configured_default> -> key of the native search"""
+    return name[len('C03.get_default_parameters.'):] if name.startswith('C03.get_default_parameters.') else name
 
 
 def replay_grid(scale):
@@ -778,16 +791,20 @@ def families(tier):
         fams.append(('QuasiRandomDesigner._generate_discrete_point', halton_entry(pad), halton_post(pad), replay_halton(pad), None))
     for t in TYPES:
         for wd in (False, True):
-            fams.append(('suggest_default.get_default_parameters', default_entry(t, wd), default_post(t, wd), replay_default, None))
+            fams.append(('suggest_default.get_default_parameters', default_entry(t, wd), default_post(t, wd), replay_default(), 'default'))
+    # the centre of a scaled DOUBLE parameter (every scale type; degenerate ranges lo == hi included)
+    for sc in ('LINEAR', 'LOG', 'REVERSE_LOG'):
+        fams.append(('suggest_default.get_default_parameters', default_entry('DOUBLE', False, sc), default_post('DOUBLE', False, sc), replay_default(sc), 'default'))
     fams.append(('DefaultPolicyFactory.__call__', factory_entry, factory_post, replay_factory, None))
     for dotted, c in ((RDM, 'RandomDesigner'), (QRM, 'QuasiRandomDesigner'), (GRID, 'GridSearchDesigner')):
         fams.append((c + '.__init__', guard_entry(dotted, c), guard_post(c), replay_guard(dotted, c), None))
     fams.append(('RandomDesigner.suggest', rd_suggest_entry, rd_suggest_post, None, None))
     # the decode producer shared with C15 (same entries and postconditions, recorded under C03 names)
-    dt = 'float64'
     for t in TYPES:
         for sc in (C15.SCALES if t == 'DOUBLE' else (None,)):
-            fams.append(('DefaultModelInputConverter._to_parameter_value', C15.tpv_entry(t, dt, sc), C15.tpv_post(t, dt, sc), C15.replay_tpv(dt, sc), 'c15'))
+            for dt in ('float32', 'float64'):      # float32 is the default dtype of the converters (NSGA2, Eagle, Grid use it)
+                fams.append(('DefaultModelInputConverter._to_parameter_value', C15.tpv_entry(t, dt, sc), C15.tpv_post(t, dt, sc), C15.replay_tpv(dt, sc), 'c15'))
+            dt = 'float64'
             fams.append(('DefaultModelInputConverter.to_parameter_values', C15.tpvs_entry(t, dt, sc), C15.tpvs_post(t, dt, sc), None, 'c15-decode-contract'))
     for sc in ('LOG', 'REVERSE_LOG'):
         fams.append(('ModelInputArrayBijector.scaler_from_spec', C15.scaler_entry(dt, sc, False), C15.scaler_post(dt, sc, False), C15.replay_scaler(dt, sc), 'c15'))
@@ -839,8 +856,14 @@ def main(tier):
         if mode in ('decode-contract', 'c15-decode-contract'):
             E.MODELS[C15.TPV_KEY] = C15._decode_contract
         try:
+            if mode == 'default':
+                ref = C15.refuter('default', driver=REPLAY, key_fn=default_key)
+            elif mode == 'c15':
+                ref = C15.refuter(C15.kind_of(fname), driver=C15.REPLAY)
+            else:
+                ref = None
             fr = verify.verify_function(Scoped(chk), fname, entry, post, known=known, on_violation=onv, witness_terms=witness_terms,
-                                        timeout_ms=timeout, deadline_s=120, only=keep, rename=rename)
+                                        timeout_ms=timeout, deadline_s=120, only=keep, rename=rename, refute=ref)
         finally:
             E.MODELS.pop(C15.TPV_KEY, None)
         inlined |= fr.inlined
@@ -887,4 +910,5 @@ def main(tier):
                             '%d generated flat spaces (1, 2, ~5 and all of %s parameter kinds: unit/negative/singleton/huge/tiny/LOG/REVERSE_LOG/defaulted doubles, zero-width/'
                             'small/wide integers, 1/3/12 discrete values, 1/3 categories, bool) x batch sizes; refusals (exceptions) are allowed and counted'
                             % (res['spaces'], 'the pool of'), 'held', detail={k: res[k] for k in ('spaces', 'runs', 'n_refusals', 'refusal_examples')})
+    C15.dedupe_violations(chk)
     return chk.finish(min_obligations=60, inventory=INVENTORY)
